@@ -20,6 +20,7 @@ variable (c : Prop) [Decidable c]
 @[simp] theorem Thread.ite_w (a b : Thread) : (if c then a else b).w = if c then a.w else b.w := by split <;> rfl
 @[simp] theorem Fut.ite_phase (a b : Fut) : (if c then a else b).phase = if c then a.phase else b.phase := by split <;> rfl
 @[simp] theorem Fut.ite_busy (a b : Fut) : (if c then a else b).busy = if c then a.busy else b.busy := by split <;> rfl
+@[simp] theorem Fut.ite_bo (a b : Fut) : (if c then a else b).bo = if c then a.bo else b.bo := by split <;> rfl
 end ite
 
 inductive Step (cfg : Cfg) (s : State) (t : Tid) : Lbl → State → Prop
@@ -125,10 +126,10 @@ inductive Step (cfg : Cfg) (s : State) (t : Tid) : Lbl → State → Prop
       Step cfg s t (.unpark u) (withPc { s with token := upd s.token u true } t (.ret .ok))
   | dLoadWoken (hpc : (s.th t).pc = .dLoad) (hw : (s.wl.node (.fut (curF (s.th t)))).woken = true) :
       Step cfg s t (.load (.nodeState (.fut (curF (s.th t)))) .acquire (b2n (s.wl.node (.fut (curF (s.th t)))).woken))
-        (withPc { s with fut := upd s.fut (curF (s.th t)) { phase := .absent, busy := false } } t (.llSwap .wakeNext))
+        (withPc { s with fut := upd s.fut (curF (s.th t)) { s.fut (curF (s.th t)) with phase := .absent, busy := false } } t (.llSwap .wakeNext))
   | dLoadWaiting (hpc : (s.th t).pc = .dLoad) (hw : ¬ (s.wl.node (.fut (curF (s.th t)))).woken = true) :
       Step cfg s t (.load (.nodeState (.fut (curF (s.th t)))) .acquire (b2n (s.wl.node (.fut (curF (s.th t)))).woken))
-        (withPc { s with fut := upd s.fut (curF (s.th t)) { phase := .absent, busy := false } } t (.ret .ok))
+        (withPc { s with fut := upd s.fut (curF (s.th t)) { s.fut (curF (s.th t)) with phase := .absent, busy := false } } t (.ret .ok))
   | boPark (hpc : (s.th t).pc = .boPark) (htok : s.token t = true) :
       Step cfg s t .park
         (pollHead cfg { s with token := upd s.token t false, th := upd s.th t { s.th t with i := 0 } } t)
